@@ -1686,8 +1686,8 @@ def put(a, idx, vals):
 
 
 def unravel_index(i, shape):
-    if isinstance(i, Sym):
-        raise Unsupported("unravel_index symbolic")
+    if isinstance(i, (Sym, SArr, list, tuple)):
+        raise Unsupported("unravel_index on arrays / symbolic indices")
     return tuple(int(x) for x in _np.unravel_index(i, shape))
 
 
